@@ -53,6 +53,8 @@ var polluters = []string{
 	"导入《@网络》\n输入A\n令O = （新建HTTP请求：“GET”、“http://x”）\n以O之头部（写入：“键”、A）\n输出 1",
 	"导入《@网络》\n输入A\n如何新建HTTP请求？\n    输入M、U\n    其方法 = “被替换”\n输出 1",
 	"导入《@网络》\n输入A\n如何新建HTTP响应？\n    其状态码 = A\n输出 1",
+	"导入《@网络》\n输入A\n令O = （新建HTTP响应：200、“正文”）\n以O之头部（写入：“X-Trace”、A）\n以O之头部（移除：“Content-Type”）\n输出 1",
+	"导入《@网络》\n输入A\n令O = （新建HTTP响应：200、A）\n以O之头部（写入：“X-Trace”、A）\n输出 1",
 }
 
 type probe struct {
@@ -87,6 +89,14 @@ var probes = []probe{
 		u, ok2 := a.GetValue()[1].(*value.String)
 		return ok1 && ok2 && m.GetValue() == "POST" && u.GetValue() == "http://y" && isNum(a.GetValue()[2], 0)
 	}, "a library type constructs its objects as documented (constructor and default properties pristine)"},
+	{"导入《@网络》\n令O = （新建HTTP响应：200、“正文”）\n令P = （新建HTTP响应：200、5）\n输出 【O之头部之数目，O之头部#“Content-Type”，P之头部之数目】", func(o outcome) bool {
+		a, ok := o.res.(*value.Array)
+		if o.err != nil || !ok || a.Length() != 3 {
+			return false
+		}
+		ct, ok1 := a.GetValue()[1].(*value.String)
+		return isNum(a.GetValue()[0], 1) && ok1 && ct.GetValue() == "text/plain" && isNum(a.GetValue()[2], 1)
+	}, "a response built by a library type has its documented headers, whatever earlier executions did to theirs"},
 	{"令L = 【真，假，空】\n输出 L#3", func(o outcome) bool { _, ok := o.res.(*value.Null); return o.err == nil && ok }, "predefined 真 假 空 are pristine"},
 }
 
